@@ -494,6 +494,10 @@ func (rc *replayCtx) evalEnsuresOnGround(out string, vals map[string]string) (bo
 // runInPackageTest injects a test file (plus the lemma overlay with recording
 // markers) into pkg's directory via -overlay and runs it.
 func (rc *replayCtx) runInPackageTest(pkg *types.Package, testSrc string) (string, error) {
+	return rc.runInPackageTestWithMarkers(pkg, testSrc, fmt.Sprintf(replayMarkers, pkg.Name()), "^TestGovcReplay$", 60)
+}
+
+func (rc *replayCtx) runInPackageTestWithMarkers(pkg *types.Package, testSrc, markers, runPat string, timeoutS int) (string, error) {
 	rel := strings.TrimPrefix(strings.TrimPrefix(pkg.Path(), modPath), "/")
 	pkgDir := filepath.Join(rc.o.Repo, rel)
 	dir, err := os.MkdirTemp("", "govc-replay-")
@@ -515,7 +519,7 @@ func (rc *replayCtx) runInPackageTest(pkg *types.Package, testSrc string) (strin
 		src := filepath.Join(ldir, e.Name())
 		if e.Name() == "markers.go" {
 			mf := filepath.Join(dir, "markers.go")
-			os.WriteFile(mf, []byte(fmt.Sprintf(replayMarkers, pkg.Name())), 0o644)
+			os.WriteFile(mf, []byte(markers), 0o644)
 			src = mf
 		}
 		ov[filepath.Join(pkgDir, "zz_verif_"+e.Name())] = src
@@ -523,9 +527,9 @@ func (rc *replayCtx) runInPackageTest(pkg *types.Package, testSrc string) (strin
 	ovb, _ := json.Marshal(map[string]interface{}{"Replace": ov})
 	ovf := filepath.Join(dir, "overlay.json")
 	os.WriteFile(ovf, ovb, 0o644)
-	ctx, cancel := context.WithTimeout(context.Background(), 150*time.Second)
+	ctx, cancel := context.WithTimeout(context.Background(), time.Duration(timeoutS+90)*time.Second)
 	defer cancel()
-	cmd := exec.CommandContext(ctx, "go", "test", "-overlay", ovf, "-tags", "verif", "-vet=off", "-count=1", "-timeout", "60s", "-v", "-run", "^TestGovcReplay$", ".")
+	cmd := exec.CommandContext(ctx, "go", "test", "-overlay", ovf, "-tags", "verif", "-vet=off", "-count=1", "-timeout", fmt.Sprintf("%ds", timeoutS), "-v", "-run", runPat, ".")
 	cmd.Dir = pkgDir
 	cmd.Env = append(os.Environ(), "GOFLAGS=-mod=mod", "GOPROXY=off", "GOSUMDB=off", "GOTOOLCHAIN=local")
 	var buf bytes.Buffer
